@@ -8,6 +8,8 @@ import ErbiumModel.Judge.C06
 import ErbiumModel.Judge.C15
 import ErbiumModel.Judge.DnsWire
 import ErbiumModel.Judge.C03
+import ErbiumModel.Judge.C18
+import ErbiumModel.Judge.C17
 /-! Line-protocol driver. stdin: `<suite> <input tokens> => <implementation observation>`;
     stdout: `<correspondence verdict> | <oracle verdict>` per line. -/
 open Erbium Util
@@ -29,6 +31,8 @@ def judge (suite : String) (inp obs : List String) : Verdict :=
   | "dnsdec" => Judge.DnsWire.judgeDec inp obs
   | "dnsenc" => Judge.DnsWire.judgeEnc inp obs
   | "inreply" => Judge.C03.judge inp obs
+  | "leasedb" => Judge.C18.judge inp obs
+  | "ra" => Judge.C17.judge inp obs
   | _ => badInput ("unknown-suite:" ++ suite)
 
 def judgeLine (line : String) : String :=
